@@ -197,21 +197,17 @@ def const_value(src, name):
     raise ParseError("cannot evaluate const %s = %s" % (name, v))
 
 
-# (gallina name, [(param, type)], result type, file, function header regex (or None: whole file),
-#  regex inside the body with group 'e' = the expression, {rust ident -> gallina param}, allow_sub)
-ITEMS = [
-    ("txt_prop_refused_len", [("prop_len", "N")], "bool", "src/service_info.rs",
-     r"pub fn new<Ip: AsIpAddrs, P: IntoTxtProperties>\(", r"if (?P<e>prop_len [^{]+?) \{",
-     {"prop_len": "prop_len"}, False),
-]
-
-CONST_ITEMS = [
-    # (gallina name, file, const name)
-]
+# Item files: tools/params/<group>.py, each defining
+#   OUT = "ParamsXxx.v"            (file name under coq/Gen/)
+#   CONST_ITEMS = [(gallina name, rust file, const name), ...]
+#   ITEMS = [(gallina name, [(param, type)], result type, rust file,
+#             function header regex (or None = whole file),
+#             regex inside the body with group 'e' = the expression,
+#             {rust identifier -> gallina term}, allow_sub), ...]
+# One Gallina file is generated per item file.
 
 
-def main():
-    repo, out = sys.argv[1], sys.argv[2]
+def gen_one(repo, modname, itemmod, outdir):
     files = {}
 
     def src(f):
@@ -219,18 +215,18 @@ def main():
             files[f] = strip_rust_comments(open("%s/%s" % (repo, f)).read())
         return files[f]
 
-    lines = ["(* GENERATED by tools/extract_params.py from the Rust sources - do not edit. *)",
+    lines = ["(* GENERATED by tools/extract_params.py from the Rust sources (tools/params/%s.py) - do not edit. *)" % modname,
              "From Coq Require Import NArith Bool.", "Open Scope N_scope.", ""]
     errors = []
     consts = {}
-    for gname, f, cname in CONST_ITEMS:
+    for gname, f, cname in getattr(itemmod, "CONST_ITEMS", []):
         try:
             v = const_value(src(f), cname)
             consts[cname] = v
             lines.append("Definition %s : N := %d." % (gname, v))
-        except (ParseError, ValueError) as e:
+        except (ParseError, ValueError, OSError) as e:
             errors.append("%s: %s" % (gname, e))
-    for gname, params, rty, f, header, inner, env, allow_sub in ITEMS:
+    for gname, params, rty, f, header, inner, env, allow_sub in getattr(itemmod, "ITEMS", []):
         try:
             body = body_of(src(f), header) if header else src(f)
             ms = list(re.finditer(inner, body))
@@ -239,20 +235,46 @@ def main():
             g = translate(ms[0].group("e"), env, consts, allow_sub)
             ps = " ".join("(%s : %s)" % p for p in params)
             lines.append("Definition %s %s : %s := %s." % (gname, ps, rty, g))
-        except (ParseError, ValueError) as e:
+        except (ParseError, ValueError, OSError) as e:
             errors.append("%s: %s" % (gname, e))
     text = "\n".join(lines) + "\n"
+    out = "%s/%s" % (outdir, itemmod.OUT)
+    if not errors:
+        try:
+            old = open(out).read()
+        except OSError:
+            old = None
+        if old != text:
+            open(out, "w").write(text)
+    return errors
+
+
+def main():
+    import importlib.util
+    import os
+    repo = sys.argv[1]
+    outdir = os.path.dirname(sys.argv[2]) if sys.argv[2].endswith(".v") else sys.argv[2]
+    here = os.path.join(os.path.dirname(os.path.abspath(__file__)), "params")
+    only = sys.argv[3:]  # optional: item-file names
+    errors = []
+    n = 0
+    for fn in sorted(os.listdir(here)):
+        if not fn.endswith(".py") or fn.startswith("_"):
+            continue
+        name = fn[:-3]
+        if only and name not in only:
+            continue
+        spec = importlib.util.spec_from_file_location("params_" + name, os.path.join(here, fn))
+        m = importlib.util.module_from_spec(spec)
+        spec.loader.exec_module(m)
+        errs = gen_one(repo, name, m, outdir)
+        errors += ["%s: %s" % (name, e) for e in errs]
+        n += 1
     if errors:
         sys.stderr.write("extract_params: lost anchors:\n  " + "\n  ".join(errors) + "\n")
         print("\n".join(errors))
         sys.exit(1)
-    try:
-        old = open(out).read()
-    except OSError:
-        old = None
-    if old != text:
-        open(out, "w").write(text)
-    print("ok: %d definitions" % (len(ITEMS) + len(CONST_ITEMS)))
+    print("ok: %d item files" % n)
 
 
 if __name__ == "__main__":
